@@ -667,7 +667,9 @@ fn c02_grammar(input: &Input, obs: &mut Obs) -> Result<(), Fail> {
     let (reqs, end) = ref_parse(&stream, buf_size(), eff(limit));
     let bounds = ref_bounds(&stream, &reqs);
     let r = {
-        let mut sch = sched_from_src(&mut s, &stream, &bounds, 0);
+        // a few idle (would-block / interrupted) reads in between: they must not change what is
+        // accepted, delivered or rejected afterwards
+        let mut sch = sched_from_src(&mut s, &stream, &bounds, 6);
         run_focus("C02", &F_C02, &stream, &reqs, &end, limit, false, &mut sch)?
     };
     let ncomplete = reqs.iter().filter(|r| r.complete_at != usize::MAX).count();
